@@ -364,23 +364,11 @@ def run(ctx, anchors=None):
     cfgf = fb.fn("Instance::configure_tx_txin")
     vwp = fb.fn("VerifyWitnessProgram")
 
-    def size_pred(func):
-        for n in func.nodes():
-            if n["k"] == "if":
-                dj = S.disjuncts(n["cond"])
-                if len(dj) == 3 and all("control.size()" in astq.estr(d) for d in dj):
-                    return sorted(astq.estr(d) for d in dj)
-        return None
-    pa, pb = size_pred(cfgf), size_pred(vwp)
-    ctx.site()
-    ctx.inst(pa is not None and pa == pb, "R05.2", "control-size-predicate", cfgf.loc(), "set-up rejects control sizes with the same three disjuncts as VerifyWitnessProgram",
-             "control-size predicate at set-up %s differs from VerifyWitnessProgram's %s" % (pa, pb))
-    # the TaprootCommitmentEnv is constructed only after that predicate rejected bad sizes
-    news = [n for n in cfgf.nodes() if n["k"] == "new" and "TaprootCommitmentEnv" in n.get("ty", "")]
-    ccfg = cfgf.cfg()
-    sz_if = [n for n in cfgf.nodes() if n["k"] == "if" and size_pred_is(n)]
-    ctx.inst(bool(news) and bool(sz_if) and all(ccfg.dominates(sz_if[0]["cond"], n) for n in news), "R05.2", "size-check-before-construction", cfgf.loc(news[0]) if news else cfgf.loc(),
-             "the commitment environment is constructed only after the control-size check")
+    # the control-size conditions decided on every accepting tapscript path of set-up equal the verifier's (G-SYM outcomes);
+    # this also covers "the commitment environment is constructed only after the size check": a path that creates it without
+    # having decided them has a different condition set
+    from . import c03_setup
+    c03_setup.check_control_size(ctx, fb, prog)
     # ---- R05.3
     stepper = fb.fn("StepScript", file="debugger/interpreter.cpp")
     # the hash handed on for signing is the leaf hash as computed at construction: through the sink pointer, or kept by value
